@@ -38,8 +38,8 @@ def extra_eval(c, io, mo):
     return fails
 
 
-from props import gen_hashdict, gen_xbw, gen_htfc, gen_hashhf
-CFG = DC.Config("C02", D.ALL_KINDS, make_cmds, components=[gen_hashdict, gen_xbw, Slice(gen_htfc, 5, 1, 3), Slice(gen_hashhf, 3, 1, 2)], nsets=(9, 24), big=True, extra_eval=extra_eval,
+from props import gen_hashdict, gen_xbw, gen_htfc, gen_hashhf, gen_hhtfc
+CFG = DC.Config("C02", D.ALL_KINDS, make_cmds, components=[gen_hashdict, gen_xbw, Slice(gen_htfc, 5, 1, 3), Slice(gen_hashhf, 3, 1, 2), Slice(gen_hhtfc, 8, 1, 3)], nsets=(9, 24), big=True, extra_eval=extra_eval,
                 rule="all 13 kinds; queries NOT in S: proper prefixes and one-byte extensions (0x02, a used byte, 0xFE) of members, "
                      "last byte +-1, one inner byte changed, below the first / above the last member, bytes occurring nowhere; "
                      "IDs 0, n+1, n+2, 2n+1, 2^32-1, 2^32, 2^32+1, 2^64-1. Each query runs in its own forked ASan process with the "
